@@ -16,9 +16,10 @@ using refq::cplx;
 using refq::SV;
 using sim::Json;
 
-enum Kind { DECL = 0, DECLARR, NEWOBJ1, NEWOBJ2, GATE, CX, MEAS_STMT, MEAS_EXPR, MEAS_ARR, RESET, DROP, IFGATE, KIND_COUNT };
+enum Kind { DECL = 0, DECLARR, NEWOBJ1, NEWOBJ2, GATE, CX, MEAS_STMT, MEAS_EXPR, MEAS_ARR, RESET, DROP, IFGATE, CYCLE, ALIAS, KIND_COUNT };
+inline bool isDecl(int k) { return k <= NEWOBJ2 || k == ALIAS; }
 inline const char* kindName(int k) {
-    static const char* n[] = {"decl", "declarr", "newobj1", "newobj2", "gate", "cx", "measure_stmt", "measure_expr", "measure_array", "reset", "drop", "if_gate"};
+    static const char* n[] = {"decl", "declarr", "newobj1", "newobj2", "gate", "cx", "measure_stmt", "measure_expr", "measure_array", "reset", "drop", "if_gate", "garbage_cycle_owning_qubits", "alias"};
     return k >= 0 && k < KIND_COUNT ? n[k] : "?";
 }
 inline const char* gateName(int g) {
@@ -26,7 +27,8 @@ inline const char* gateName(int g) {
     return g >= 0 && g < 7 ? n[g] : "?";
 }
 
-// handle kinds: 0 variable q<decl>; 1 array element r<decl>[elem]; 2 object field o<decl>.q; 3 object array field p<decl>.qs[elem]
+// handle kinds: 0 variable q<decl>; 1 array element r<decl>[elem]; 2 object field o<decl>.q; 3 object array field p<decl>.qs[elem];
+// 4 alias variable a<decl> (a copy of another handle, may outlive the object it was copied from)
 struct Handle {
     int k = 0, decl = 0, elem = 0;
 };
@@ -78,6 +80,7 @@ inline std::string handleExpr(const Handle& h) {
         case 0: return "q" + std::to_string(h.decl);
         case 1: return "r" + std::to_string(h.decl) + "[" + std::to_string(h.elem) + "]";
         case 2: return "o" + std::to_string(h.decl) + ".q";
+        case 4: return "a" + std::to_string(h.decl);
         default: return "p" + std::to_string(h.decl) + ".qs[" + std::to_string(h.elem) + "]";
     }
 }
@@ -120,6 +123,9 @@ inline std::string preamble(bool trackedFields) {
     s += "function freset(qubit p) -> void { reset p; }\n";
     s += "function farrx(qubit[] r, int i) -> void { x(r[i]); }\n";
     s += "function farrm(qubit[] r) -> void { measure r; }\n";
+    s += "class QB { public qubit q; public constructor() -> QB = default; }\n";
+    s += "class QS extends QB { public QS next; public constructor() -> QS { super(); this.next = null; return this; } }\n";
+    s += "function mkCycle() -> void { QS ca = new QS(); QS cb = new QS(); ca.next = cb; cb.next = ca; }\n";
     return s;
 }
 
@@ -184,6 +190,7 @@ inline Rendered render(const Plan& p, bool trackedFields = false) {
             }
             case MEAS_EXPR: {
                 std::string e = handleExpr(o.h), b = "b" + std::to_string(o.bitvar);
+                if (o.bitvar < 0) { add("echo(measure " + e + ");", oi, true); break; }
                 if (o.h.k == 2 && o.path % 4 == 3) add("bit " + b + " = o" + std::to_string(o.h.decl) + ".m();", oi, true);
                 else if (o.path % 4 == 1) add("bit " + b + " = fmeasure(" + e + ");", oi, true);
                 else if (o.path % 4 == 2) add("bit " + b + " = qmeasure(" + e + ");", oi, true);
@@ -208,6 +215,8 @@ inline Rendered render(const Plan& p, bool trackedFields = false) {
                 else add("reset " + e + ";", oi, true);
                 break;
             }
+            case CYCLE: add("mkCycle();", oi, true); break;
+            case ALIAS: add("qubit a" + std::to_string(declCounter++) + " = " + handleExpr(o.h2) + ";", oi, true); break;
             case DROP: {
                 std::string v = (o.h.k == 2 ? "o" : "p") + std::to_string(o.h.decl);
                 if (o.viaDestroy) add("destroy " + v + ";", oi, true);
@@ -270,6 +279,9 @@ struct GenOptions {
     double objectShare = 0.25;
     bool tracked = false;              // mark declarations @tracked (C17)
     double boundaryDrawProb = 0.15;
+    double aliasProb = 0.0;            // copy an object's qubit handle into a variable that may outlive the object
+    double cycleProb = 0.0;            // leave a garbage cycle of subclass objects whose base class owns a qubit
+    double echoMeasureProb = 0.1;      // measure nested directly in an echo argument
 };
 
 // Generator-side bookkeeping mirrors the interpreter's notion of which qubits are measured, so that
@@ -282,6 +294,7 @@ inline Plan generate(sim::Rng& g, const GenOptions& go) {
     int allocated = 0;           // simulator qubits allocated so far (upper bound incl. reuse)
     int freeSlots = 0;
     int bitvars = 0;
+    std::vector<int> aliases;    // declaration ids of alias variables
     auto addHandles = [&](int declId) {
         const DeclInfo& d = decls[(size_t)declId];
         if (d.kind == 0) live.push_back({{0, declId, 0}, false});
@@ -306,6 +319,37 @@ inline Plan generate(sim::Rng& g, const GenOptions& go) {
         o.path = (int)g.below(12);
         std::vector<size_t> active, measuredIdx;
         for (size_t k = 0; k < live.size(); ++k) (live[k].measured ? measuredIdx : active).push_back(k);
+        if (go.cycleProb > 0 && g.chance(go.cycleProb) && allocated + 2 <= go.maxQubits + freeSlots) {
+            o.kind = CYCLE;
+            takeQubits(2);
+            p.ops.push_back(o);
+            continue;
+        }
+        if (go.aliasProb > 0 && g.chance(go.aliasProb) && allocated + 1 <= go.maxQubits + freeSlots) {
+            std::vector<size_t> objs;
+            for (size_t k = 0; k < live.size(); ++k)
+                if (live[k].h.k == 2) objs.push_back(k);
+            if (!objs.empty()) {
+                o.kind = ALIAS;
+                o.h2 = live[objs[g.below(objs.size())]].h;
+                DeclInfo d;
+                d.kind = 4;
+                decls.push_back(d);
+                takeQubits(1);
+                aliases.push_back((int)decls.size() - 1);
+                p.ops.push_back(o);
+                continue;
+            }
+        }
+        if (!aliases.empty() && g.chance(0.3)) {
+            o.kind = GATE;
+            o.h = Handle{4, aliases[g.below(aliases.size())], 0};
+            o.gate = g.chance(0.5) ? 1 : (int)g.below(7);
+            o.angle = (int)g.below(14);
+            o.path = (int)g.below(2);
+            p.ops.push_back(o);
+            continue;
+        }
         double u = g.unit();
         bool wantGuard = go.guardViolationProb > 0 && !measuredIdx.empty() && g.chance(go.guardViolationProb);
         if (live.empty() || (u < 0.15 && allocated - 0 < go.maxQubits)) {
@@ -349,7 +393,7 @@ inline Plan generate(sim::Rng& g, const GenOptions& go) {
             // drop an object
             std::vector<int> objs;
             for (size_t d = 0; d < decls.size(); ++d)
-                if (decls[d].alive && decls[d].kind >= 2) objs.push_back((int)d);
+                if (decls[d].alive && (decls[d].kind == 2 || decls[d].kind == 3)) objs.push_back((int)d);
             if (!objs.empty()) {
                 int d = objs[g.below(objs.size())];
                 o.kind = DROP;
@@ -400,7 +444,7 @@ inline Plan generate(sim::Rng& g, const GenOptions& go) {
             } else {
                 o.kind = g.chance(0.5) ? MEAS_STMT : MEAS_EXPR;
                 o.h = h;
-                if (o.kind == MEAS_EXPR) o.bitvar = bitvars++;
+                if (o.kind == MEAS_EXPR) o.bitvar = g.chance(go.echoMeasureProb) ? -1 : bitvars++;
                 drawSpec(o);
                 live[k].measured = true;
             }
@@ -409,7 +453,7 @@ inline Plan generate(sim::Rng& g, const GenOptions& go) {
     }
     // drop every remaining object explicitly so that no object dies in the unordered scope teardown
     for (size_t d = 0; d < decls.size(); ++d) {
-        if (decls[d].alive && decls[d].kind >= 2 && !stop) {
+        if (decls[d].alive && (decls[d].kind == 2 || decls[d].kind == 3) && !stop) {
             Op o;
             o.kind = DROP;
             o.h = Handle{decls[d].kind, (int)d, 0};
@@ -463,6 +507,8 @@ struct Interp {
     double tol = 1e-9;
 
     int resolve(const Handle& h) const { return declIdx[(size_t)h.decl][(size_t)((h.k == 1 || h.k == 3) ? h.elem : 0)]; }
+    std::vector<int> leaked;                   // indices allocated but owned by nothing the program can name
+    std::map<int, int> aliasTarget;            // alias decl id -> decl id it was copied from
 
     int allocIndex() {
         int idx;
@@ -601,6 +647,23 @@ struct Interp {
                 (void)before;
                 break;
             }
+            case CYCLE: {
+                // two subclass objects whose base class owns a qubit, left as a garbage cycle: the collector may
+                // sweep them at any time; their qubits are never released (they stay |0> and allocated)
+                leaked.push_back(allocIndex());
+                leaked.push_back(allocIndex());
+                break;
+            }
+            case ALIAS: {
+                // 'qubit a = o.q;' first allocates a qubit for the declaration, then overwrites the handle
+                leaked.push_back(allocIndex());
+                DeclInfo d;
+                d.kind = 4;
+                decls.push_back(d);
+                declIdx.push_back({resolve(o.h2)});
+                aliasTarget[(int)decls.size() - 1] = o.h2.decl;
+                break;
+            }
             case GATE:
             case IFGATE: {
                 if (o.kind == IFGATE) {
@@ -636,7 +699,7 @@ struct Interp {
                         out.push_back({"random_choice_without_randomness", "C02", "op " + std::to_string(opIndex) + ": measure of q[" + std::to_string(q) + "] with p1=" + refq::fd(p1) + " consumed no random words"});
                 }
                 measureOne(q, ob, wpos, canonical, out, opIndex);
-                if (o.kind == MEAS_EXPR) {
+                if (o.kind == MEAS_EXPR && o.bitvar >= 0) {
                     bitvars[o.bitvar] = lastMeas[(size_t)q];
                     auto it = ob.bitvars.find(o.bitvar);
                     if (!failed && (it == ob.bitvars.end() || it->second != lastMeas[(size_t)q]))
@@ -672,10 +735,9 @@ struct Interp {
                         bool has0 = p0 > 0, has1 = p1 > 0;
                         if (has0) b0.resetBranch(q, 0);
                         if (has1) b1.resetBranch(q, 1);
-                        // exact difference decides whether both candidates must be tried against the observed
-                        // state; difference up to a global phase decides whether the branch is physically
-                        // observable at all (a product state gives the same post-state up to phase)
-                        bool distinguishable = has0 && has1 && refq::maxDiff(b0.a, b1.a) > 1e-13;
+                        // global phase is unobservable: all comparisons are up to phase. A product state gives the
+                        // same post-state for both branches, so the branch is neither observable nor needs randomness.
+                        bool distinguishable = has0 && has1 && refq::maxDiffUpToPhase(b0.a, b1.a) > 1e-13;
                         bool physical = has0 && has1 && refq::maxDiffUpToPhase(b0.a, b1.a) > 1e-6;
                         if (!distinguishable) {
                             // product state (or one empty branch): the branch is unobservable and needs no randomness
@@ -705,7 +767,7 @@ struct Interp {
                 int best = -1;
                 double bestD = 1e9;
                 for (size_t k = 0; k < cands.size(); ++k) {
-                    double d = refq::maxDiff(cands[k].sv.a, ob.state);
+                    double d = refq::maxDiffUpToPhase(cands[k].sv.a, ob.state);
                     if (d < bestD) { bestD = d; best = (int)k; }
                 }
                 if (best < 0) { out.push_back({"reset_model_has_no_branch", "C04", "op " + std::to_string(opIndex)}); break; }
